@@ -164,11 +164,15 @@ class AllocEval:
         self.ex = ex
         self.f = f
         self.locals = {}
+        self.decls = {}
         for n in walk(f.body):
             if n.get('kind') == 'VarDecl' and n.get('id'):
+                self.decls[n['id']] = n
                 init = [x for x in children(n) if not x['kind'].endswith('Attr')]
                 if init:
                     self.locals[n['id']] = init[-1]
+        self.single = program.single_assignment_locals(f.node)
+        self.busy = set()
 
     def ev(self, n):
         n = strip(n, explicit=True)
@@ -200,15 +204,104 @@ class AllocEval:
             return None
         if k == 'DeclRefExpr':
             rid = (n.get('referencedDecl') or {}).get('id')
-            init = self.locals.get(rid)
-            if init is None:
+            if rid in self.busy:
                 return None
-            return self.accumulate(init) or self.ev(init)
-        if k in ('CXXConstructExpr',):
+            if rid in self.decls:
+                if rid in self.single:
+                    init = self.locals.get(rid)
+                    if init is None:
+                        return None
+                    self.busy.add(rid)
+                    try:
+                        return self.accumulate(init) or self.ev(init)
+                    finally:
+                        self.busy.discard(rid)
+                # a local that is written after its declaration: its value where the allocation reads it is
+                # the initial value plus what the loops before added to it
+                return self.summed(rid)
+            # a named constant of the file / namespace (constexpr std::size_t fixed_part = 33;)
+            d = self.f.tu.ids.get(rid)
+            if d is not None and d.get('kind') == 'VarDecl' and ('const' in (d.get('type') or '') or d.get('constexpr')):
+                init = [x for x in children(d) if not x['kind'].endswith('Attr') and not x['kind'].endswith('Comment')]
+                if init:
+                    self.busy.add(rid)
+                    try:
+                        return self.ev(init[-1])
+                    finally:
+                        self.busy.discard(rid)
+            return None
+        if k in ('CXXConstructExpr', 'InitListExpr'):
             c = [x for x in children(n) if x.get('kind') != 'CXXDefaultArgExpr']
             if len(c) == 1:
                 return self.ev(c[0])
         return None
+
+    def summed(self, vid):
+        """total = K; for (e : C) [if (e)] total += e.M.length();   ->   K + sum over C of the length of M.
+        Every write of the variable must have that form (anything else: not modelled)."""
+        init = self.locals.get(vid)
+        total = self.ev(init) if init is not None else None
+        if total is None:
+            return None
+        tu = self.f.tu
+
+        def visit(n, loops):
+            nonlocal total
+            k = n.get('kind')
+            if k == 'CXXForRangeStmt':
+                inner = n.get('inner', [])
+                lv = children(inner[-2])[0] if inner[-2].get('kind') == 'DeclStmt' and children(inner[-2]) else None
+                rng = inner[1]
+                cont = None
+                if rng.get('kind') == 'DeclStmt' and children(rng) and children(children(rng)[0]):
+                    cont = self.ex.resolve(children(children(rng)[0])[-1], {}, tu)
+                for c in inner[:-1]:
+                    if c.get('kind') and not visit_expr_only(c):
+                        return False
+                return visit(inner[-1], loops + [(lv, cont)])
+            if k in ('ForStmt', 'WhileStmt', 'DoStmt', 'LambdaExpr'):
+                return not writes(n)
+            tgt = None
+            if k in ('BinaryOperator', 'CompoundAssignOperator') and (n.get('opcode') or '').endswith('=') \
+                    and n.get('opcode') not in ('==', '!=', '<=', '>='):
+                tgt = strip(children(n)[0], explicit=True)
+            elif k == 'UnaryOperator' and n.get('opcode') in ('++', '--'):
+                tgt = strip(children(n)[0], explicit=True)
+            if tgt is not None and tgt.get('kind') == 'DeclRefExpr' and (tgt.get('referencedDecl') or {}).get('id') == vid:
+                if k != 'CompoundAssignOperator' or n.get('opcode') != '+=' or len(loops) != 1 or loops[0][0] is None:
+                    return False
+                lv, cont = loops[0]
+                term = strip(children(n)[1], explicit=True)
+                if term.get('kind') != 'CXXMemberCallExpr' or strip(children(term)[0]).get('name') not in ('length', 'size'):
+                    return False
+                r = self.ex.resolve(term, {lv['id']: '%s[]' % cont}, tu)
+                if not (r.startswith('size(%s[].' % cont) and is_plain(r[5:-1])):
+                    return False
+                total = total.add(Lin({'sum:%s' % r: 1}))
+                return True
+            for c in children(n):
+                if not visit(c, loops):
+                    return False
+            return True
+
+        def writes(n):
+            for x in walk(n):
+                k = x.get('kind')
+                t = None
+                if k in ('BinaryOperator', 'CompoundAssignOperator') and (x.get('opcode') or '').endswith('=') \
+                        and x.get('opcode') not in ('==', '!=', '<=', '>='):
+                    t = strip(children(x)[0], explicit=True)
+                elif k == 'UnaryOperator' and x.get('opcode') in ('++', '--'):
+                    t = strip(children(x)[0], explicit=True)
+                if t is not None and t.get('kind') == 'DeclRefExpr' and (t.get('referencedDecl') or {}).get('id') == vid:
+                    return True
+            return False
+
+        def visit_expr_only(n):
+            return not writes(n)
+        if not visit(self.f.body, []):
+            return None
+        return total
 
     def _is_container_of_records(self, n):
         # size() of a byte vector is a byte count; size() of a vector of records is an
@@ -299,19 +392,21 @@ def _guards_before(func, node, prog):
     return out
 
 
-def _cmp_bound(ifs, ex, tu, target):
-    """Does the guard `if (target > K) throw` (or >=) bound target to <= 255?"""
-    cond = strip(children(ifs)[0], explicit=True)
+def _cmp_bound(ifs, ex, tu, target, single=None):
+    """Does the guard `if (target > K) throw` (or >=) bound target to <= 255?  (the condition, the length
+    and the bound may each be held in a single-assignment local)"""
+    single = single or {}
+    cond = _expand_local(children(ifs)[0], single)
     conds = [cond]
     if cond.get('kind') == 'BinaryOperator' and cond.get('opcode') == '||':
-        conds = [strip(x, explicit=True) for x in children(cond)]
+        conds = [_expand_local(x, single) for x in children(cond)]
     for c in conds:
         if c.get('kind') != 'BinaryOperator' or c.get('opcode') not in ('>', '>='):
             continue
         l, r = children(c)
-        if ex.resolve(l, {}, tu) != target:
+        if ex.resolve(_expand_local(l, single), {}, tu) != target:
             continue
-        k = literal_value(r)
+        k = literal_value(_expand_local(r, single))
         if k is None:
             # numeric_limits<uint8_t>::max()
             rr = strip(r, explicit=True)
@@ -688,6 +783,10 @@ def _value_rejections(prog, cg, f, encoder_side=False):
             ptrish = any(('*' in (y.get('type') or '') and y.get('kind') in ('DeclRefExpr', 'ImplicitCastExpr'))
                          for y in walk(cond))
             seen_cmp = set()
+            # std::adjacent_find(first, last, pred): pred is applied to every pair of neighbouring elements
+            neighbours = any(z.get('kind') == 'CallExpr' and
+                             (strip(children(z)[0]).get('referencedDecl') or {}).get('name') == 'adjacent_find'
+                             for z in xwalk(cond))
             for y in xwalk(cond):
                 if y.get('kind') != 'BinaryOperator' or y.get('opcode') not in ('<', '<=', '>', '>=', '==', '!='):
                     continue
@@ -695,6 +794,14 @@ def _value_rejections(prog, cg, f, encoder_side=False):
                     continue
                 seen_cmp.add(id(y))
                 a, b = children(y)
+                if neighbours and y.get('opcode') in ('<', '<=', '>', '>='):
+                    pa = {(z.get('referencedDecl') or {}).get('id') for z in walk(a)
+                          if z.get('kind') == 'DeclRefExpr' and (z.get('referencedDecl') or {}).get('kind') == 'ParmVarDecl'}
+                    pb = {(z.get('referencedDecl') or {}).get('id') for z in walk(b)
+                          if z.get('kind') == 'DeclRefExpr' and (z.get('referencedDecl') or {}).get('kind') == 'ParmVarDecl'}
+                    if pa and pb and pa != pb:
+                        out.append(('order', y, g))     # a member of one neighbour against a member of the other
+                        continue
                 subs = [z for z in xwalk(y) if z.get('kind') in ('CXXOperatorCallExpr', 'ArraySubscriptExpr')]
                 idx = []
                 for z in subs:
@@ -901,43 +1008,73 @@ def _size_guard(func, alloc_var, ex, w, a):
     return None
 
 
+def _emit_helpers(ex, f, seen=None):
+    """f and the repository helpers it hands its output cursor to (transitively)."""
+    seen = seen if seen is not None else {}
+    if f.key in seen or f.body is None:
+        return seen
+    seen[f.key] = f
+    for n in ex._encode_calls(f.body, f.tu):
+        if ex._emit_kind(n, f.tu) == 'helper':
+            cf = ex.repo_function(ex.callee(n, f.tu)[0], f.tu)
+            if cf is not None:
+                _emit_helpers(ex, cf, seen)
+    return seen
+
+
+def _expand_local(node, single):
+    """The expression a single-assignment local stands for (named length, named flag)."""
+    n = strip(node, explicit=True)
+    for _ in range(4):
+        if n.get('kind') != 'DeclRefExpr':
+            break
+        init = single.get((n.get('referencedDecl') or {}).get('id'))
+        if init is None:
+            break
+        n = strip(init, explicit=True)
+    return n
+
+
 def _narrowing(prog, ex, chk, S2, name, f):
     """Every conversion of a container length (x.length() / x.size()) to a type of at most eight
     bits - explicit cast or implicit narrowing, wherever it stands (argument of encode_uint8,
-    initialiser of a local) - is an obligation: a dominating guard on the UN-narrowed length
+    initialiser of a local, in the encoder or in a helper the encoder hands its cursor to; the length
+    possibly held in a named local) - is an obligation: a dominating guard on the UN-narrowed length
     (`if (x.length() > 255) throw`) must bound it.  A test on the narrowed value proves nothing."""
     def small(t):
         t = (t or '').replace('const ', '').strip()
         return t in ('uint8_t', 'unsigned char', 'char', 'signed char', 'int8_t', 'std::byte', 'uint_least8_t')
     seen = set()
-    for n in walk(f.body):
-        k = n.get('kind')
-        if k not in ('CXXStaticCastExpr', 'CStyleCastExpr', 'CXXFunctionalCastExpr', 'ImplicitCastExpr'):
-            continue
-        if not small(n.get('dtype') or n.get('type')):
-            continue
-        c = children(n)
-        if len(c) != 1:
-            continue
-        inner = strip(c[0], explicit=True)
-        if inner.get('kind') != 'CXXMemberCallExpr':
-            continue
-        callee = strip(children(inner)[0])
-        if callee.get('name') not in ('length', 'size'):
-            continue
-        if id(inner) in seen:
-            continue
-        seen.add(id(inner))
-        target = ex.resolve(inner, {}, f.tu)
-        guards = _guards_before(f, n, prog)
-        if any(_cmp_bound(g, ex, f.tu, target) for g in guards):
-            chk.ok(S2, '%s: %s narrowed to one byte under a range guard on the full length' % (name, target), locstr(n))
-        else:
-            chk.violation(S2, '%s|%s' % (name, re.sub(r'local:', '', target)), locstr(n),
-                          '%s::%s narrows %s to one byte with no dominating check of the full length against '
-                          '255 (a test on the already narrowed value cannot fail): a longer label is written '
-                          'with a truncated length byte followed by all of its bytes, and decodes to something '
-                          'else' % (_short(f.cls or ''), f.name, target))
+    for g in _emit_helpers(ex, f).values():
+        single = program.single_assignment_locals(g.node)
+        for n in walk(g.body):
+            k = n.get('kind')
+            if k not in ('CXXStaticCastExpr', 'CStyleCastExpr', 'CXXFunctionalCastExpr', 'ImplicitCastExpr'):
+                continue
+            if not small(n.get('dtype') or n.get('type')):
+                continue
+            c = children(n)
+            if len(c) != 1:
+                continue
+            inner = _expand_local(c[0], single)
+            if inner.get('kind') != 'CXXMemberCallExpr':
+                continue
+            callee = strip(children(inner)[0])
+            if callee.get('name') not in ('length', 'size'):
+                continue
+            if (id(inner), id(strip(c[0], explicit=True))) in seen:
+                continue
+            seen.add((id(inner), id(strip(c[0], explicit=True))))
+            target = ex.resolve(inner, {}, g.tu)
+            guards = _guards_before(g, n, prog)
+            if any(_cmp_bound(gd_, ex, g.tu, target, single) for gd_ in guards):
+                chk.ok(S2, '%s: %s narrowed to one byte under a range guard on the full length' % (name, target), locstr(n))
+            else:
+                chk.violation(S2, '%s|%s' % (name, re.sub(r'local:', '', target)), locstr(n),
+                              '%s::%s narrows %s to one byte with no dominating check of the full length against '
+                              '255 (a test on the already narrowed value cannot fail): a longer label is written '
+                              'with a truncated length byte followed by all of its bytes, and decodes to something '
+                              'else' % (_short(g.cls or f.cls or ''), g.name, target))
 
 
 def _sentinels(prog, ex, chk, S4, name, ge, gd):
@@ -1042,16 +1179,25 @@ def _sibling_guard(prog, chk, S5):
         if f.qualname in seen:
             continue
         seen.add(f.qualname)
-        has_guard = False
-        for n in walk(f.body):
-            if n.get('kind') == 'IfStmt':
-                cond = children(n)[0]
-                dec = any(x.get('kind') in ('CallExpr',) and
-                          (strip(children(x)[0]).get('referencedDecl') or {}).get('name') == 'decode'
-                          for x in walk(cond))
-                then = children(n)[1]
-                if dec and any(x.get('kind') == 'CXXThrowExpr' for x in walk(then)):
-                    has_guard = True
+        def guarded(fn, depth=0):
+            """fn (or a repository helper it calls) throws when decode(...) of the encoded value differs: the
+            test may be written in the condition or held in a named flag (single-assignment local)."""
+            for n in walk(fn.body):
+                if n.get('kind') == 'IfStmt':
+                    c = children(n)
+                    dec = any(x.get('kind') in ('CallExpr',) and
+                              (strip(children(x)[0]).get('referencedDecl') or {}).get('name') == 'decode'
+                              for x in program.walk_expanded(c[0], fn.node))
+                    if dec and any(any(x.get('kind') == 'CXXThrowExpr' for x in walk(arm)) for arm in c[1:]):
+                        return True
+                elif n.get('kind') == 'CallExpr' and depth < 2:
+                    ref = strip(children(n)[0]).get('referencedDecl') or {}
+                    d = fn.tu.ids.get(ref.get('id'))
+                    for t in (prog.definitions_for(fn.tu, d) if d is not None else []):
+                        if t.body is not None and prog.in_repo(t.file) and t is not fn and guarded(t, depth + 1):
+                            return True
+            return False
+        has_guard = guarded(f)
         inst = '%s binds %d encoded blob(s) into PerformanceData' % (f.qualname, len(eb))
         if has_guard:
             chk.ok(S5, inst + ' behind decode(encode(x)) == x', locstr(f.node))
